@@ -1,10 +1,147 @@
 /-
-Driver of word `imp` (importer model, stream expimp).  Filled in by the importer model work.
+Driver of word `imp` (message level of the DBC importer / exporter, stream `imp`).
+
+  imp import <dmsg-json>   → ok <itree>  |  err <cause>
+  imp export <itree-json>  → ok <dmsg>   |  err <cause>      (the tree is first built through the
+                                                              modelled API calls: `Import.build`)
+
+JSON (no blank anywhere: the driver splits a line at blanks; names are identifiers):
+  dmsg  = {"id":N,"size":N,"sigs":[{"n":name,"s":start,"z":size,"be":0|1,"mr":0|1,"md":0|1,"k":switch}…],
+           "ext":[{"x":multiplexor,"d":multiplexed,"r":[[from,to]…]}…]}
+  itree = {"id":N,"size":Z,"be":0|1,"top":[item…]}
+  item  = {"t":"s","n":name,"s":start,"z":size}
+        | {"t":"m","n":name,"s":start,"gc":groupCount,"gs":groupSize,
+           "ch":[{"n":name,"r":relStart,"z":size,"g":[ids…]}…]}          ("g":[] = fixed)
+
+Renderings (the same text is produced by harness/s_imp.go from the real objects):
+  itree: id=… size=… be=… top=[s:name@start+size,M:name@start+size(w=…,gc=…,gs=…,ch=[name@rel/abs+size:F|id.id…,…],g=[[names of group 0],…]),…]
+         children sorted by (rel, name) — their registry is a Go map —, groups in layout order
+  dmsg:  id=… size=… sigs=[name:-|M|m<k>|m<k>M:start|size@L|B,…] ext=[multiplexed/multiplexor:from-to.from-to,…]
 -/
+import Lean.Data.Json
 import Acme.Driver.Util
+import Acme.Core.Import
 
 namespace Acme.Driver.ImportD
+open Lean (Json)
+open Acme.Import
 
-def handle (_args : List String) : String := "bad-op"
+abbrev D := Except String
+
+def fld (j : Json) (k : String) : D Json := j.getObjVal? k
+def fStr (j : Json) (k : String) : D String := do (← fld j k).getStr?
+def fNat (j : Json) (k : String) : D Nat := do (← fld j k).getNat?
+def fInt (j : Json) (k : String) : D Int := do (← fld j k).getInt?
+def fFlag (j : Json) (k : String) : D Bool := do return (← fNat j k) != 0
+
+def fList {α : Type} (f : Json → D α) (j : Json) (k : String) : D (List α) := do
+  let v ← fld j k
+  if v.isNull then return []
+  let a ← v.getArr?
+  a.toList.mapM f
+
+def dSig (j : Json) : D DSig := do
+  pure { name := ← fStr j "n", start := ← fNat j "s", size := ← fNat j "z", bigEndian := ← fFlag j "be",
+         isMultiplexor := ← fFlag j "mr", isMultiplexed := ← fFlag j "md", muxSwitch := ← fNat j "k" }
+
+def dRange (j : Json) : D (Nat × Nat) := do
+  let a ← j.getArr?
+  match a.toList with
+  | [f, t] => pure (← f.getNat?, ← t.getNat?)
+  | _ => throw "range"
+
+def dExt (j : Json) : D DExt := do
+  pure { muxor := ← fStr j "x", muxed := ← fStr j "d", ranges := ← fList dRange j "r" }
+
+def dMsg (j : Json) : D DMsg := do
+  pure { id := ← fNat j "id", size := ← fNat j "size", sigs := ← fList dSig j "sigs",
+         exts := ← fList dExt j "ext" }
+
+def dChild (j : Json) : D Child := do
+  pure { name := ← fStr j "n", rel := ← fInt j "r", size := ← fInt j "z",
+         gids := ← fList (·.getInt?) j "g" }
+
+def dItem (j : Json) : D Item := do
+  match ← fStr j "t" with
+  | "s" => pure (.sig { name := ← fStr j "n", start := ← fInt j "s", size := ← fInt j "z" })
+  | "m" => pure (.mux { name := ← fStr j "n", start := ← fInt j "s", selW := 0,
+                        groupCount := ← fInt j "gc", groupSize := ← fInt j "gs",
+                        children := ← fList dChild j "ch" })
+  | _ => throw "item"
+
+def dTree (j : Json) : D ITree := do
+  pure { id := ← fNat j "id", sizeByte := ← fInt j "size", bigEndian := ← fFlag j "be",
+         top := ← fList dItem j "top" }
+
+/-! ## renderings -/
+
+def showFlag (b : Bool) : String := if b then "1" else "0"
+
+def showIds (xs : List Int) : String :=
+  if xs.isEmpty then "F" else ".".intercalate (xs.map toString)
+
+def childLe (a b : Child) : Bool := a.rel < b.rel || (a.rel == b.rel && a.name ≤ b.name)
+
+def showChild (n : MuxNode) (c : Child) : String :=
+  s!"{c.name}@{c.rel}/{n.start + n.selW + c.rel}+{c.size}:{showIds c.gids}"
+
+def showGroups (n : MuxNode) : String :=
+  showList ((List.range n.groupCount.toNat).map (fun (k : Nat) =>
+    showList ((groupOf n.children (k : Int)).map (·.name))))
+
+def showItem : Item → String
+  | .sig l => s!"s:{l.name}@{l.start}+{l.size}"
+  | .mux n =>
+    let ch := (n.children.mergeSort childLe).map (showChild n)
+    s!"M:{n.name}@{n.start}+{n.groupSize + n.selW}(w={n.selW},gc={n.groupCount},gs={n.groupSize},ch={showList ch},g={showGroups n})"
+
+def showTree (t : ITree) : String :=
+  s!"id={t.id} size={t.sizeByte} be={showFlag t.bigEndian} top={showList (t.top.map showItem)}"
+
+def showInd (s : DSig) : String :=
+  if s.isMultiplexed && s.isMultiplexor then s!"m{s.muxSwitch}M"
+  else if s.isMultiplexed then s!"m{s.muxSwitch}"
+  else if s.isMultiplexor then "M" else "-"
+
+def showSig (s : DSig) : String :=
+  s!"{s.name}:{showInd s}:{s.start}|{s.size}@{if s.bigEndian then "B" else "L"}"
+
+def showExt (e : DExt) : String :=
+  s!"{e.muxed}/{e.muxor}:{".".intercalate (e.ranges.map (fun r => s!"{r.1}-{r.2}"))}"
+
+def showMsg (m : DMsg) : String :=
+  s!"id={m.id} size={m.size} sigs={showList (m.sigs.map showSig)} ext={showList (m.exts.map showExt)}"
+
+def showErr : ImpErr → String
+  | .byteOrder => "byteOrder" | .startOutOfBounds => "startOutOfBounds" | .msgTooBig => "msgTooBig"
+  | .sizeOutOfBounds => "sizeOutOfBounds" | .sizeZero => "sizeZero" | .nameDuplicated => "nameDuplicated"
+  | .startNegative => "startNegative" | .noSpaceLeft => "noSpaceLeft" | .intersect => "intersect"
+  | .groupCountZero => "groupCountZero" | .groupCountNegative => "groupCountNegative"
+  | .groupSizeZero => "groupSizeZero" | .groupSizeNegative => "groupSizeNegative"
+  | .groupIdOutOfBounds => "groupIdOutOfBounds" | .groupIdNegative => "groupIdNegative"
+  | .extMuxRequired => "extMuxRequired" | .nameNotFound => "nameNotFound" | .precede => "precede"
+  | .unsupported => "unsupported"
+
+def handleImport (payload : String) : String :=
+  match Json.parse payload >>= dMsg with
+  | .error e => "bad-op " ++ e
+  | .ok m =>
+    match importMsg m with
+    | .ok t => "ok " ++ showTree t
+    | .error e => "err " ++ showErr e
+
+def handleExport (payload : String) : String :=
+  match Json.parse payload >>= dTree with
+  | .error e => "bad-op " ++ e
+  | .ok t =>
+    match build t with
+    | .ok t' => "ok " ++ showMsg (exportMsg t')
+    | .error e => "err " ++ showErr e
+
+def handle (args : List String) : String :=
+  match args with
+  | "import" :: payload :: _ => handleImport payload
+  | "export" :: payload :: _ => handleExport payload
+  | _ => "bad-op"
 
 end Acme.Driver.ImportD
